@@ -13,6 +13,7 @@ mod ops;
 mod pats;
 mod schedmode;
 mod seq;
+mod steps;
 mod util;
 
 use pats::{Bb, Ev, Ps, Rr};
@@ -37,6 +38,7 @@ fn main() {
         Some("seq") => by_pat!(pat, seq, run, &args),
         Some("conc") => by_pat!(pat, conc, run, &args),
         Some("sched") => by_pat!(pat, schedmode, run, &args),
+        Some("steps") => by_pat!(pat, steps, run, &args),
         Some("matrix") => by_pat!(pat, matrix, run, &args),
         Some("defaults") => {
             let c = util::make_config(&args.get_or("root", "/tmp/c06-defaults"), "c6d_", 1000);
